@@ -133,8 +133,13 @@ var c11Leavers = [][]byte{
 	unhex("58 92 52 0003 787878 4e"),       // the same inside a list
 	unhex("62 0001 61 42 0001 62"),         // (a valid message) a binary in the chunk tag of the draft, x62
 	unhex("79 62 0002 6162 20"),            // the same inside a list, the final chunk empty
+	// an instance of Inner with an unknown field in front, whose value - an instance of a class nobody registered, a
+	// typed list of a type nobody registered - ends with the input: refused while a value was being dropped
+	unhex("43 05 496e6e6572 92 03 7a7a7a 01 61  60  43 03 782e79 91 01 61  60"),
+	unhex("43 05 496e6e6572 92 03 7a7a7a 01 61  60  72 07 5b6e6f73756368 90"),
+	unhex("43 05 496e6e6572 92 03 7a7a7a 01 61  60  4d 06 6e6f6d617070 01 61"),
 }
-var c11Pair = []int{0, 0, 1, 1, 2, 2, 0, 3, 3, 4, 4}
+var c11Pair = []int{0, 0, 1, 1, 2, 2, 0, 3, 3, 4, 4, 5, 6, 7}
 var c11Sensitive = [][]byte{
 	unhex("58 92 72 04 5b696e74 90 91 73 90 92 93 94"), // the second typed list names its type by reference #0
 	unhex("60 91"), // instance of class #0, no definition in this message
@@ -142,6 +147,11 @@ var c11Sensitive = [][]byte{
 	unhex("58 92 03 616263 52 0001 64 01 65"), // strings, one of them in two chunks: whatever is left of an earlier string shows
 	// three classes and one instance of each in the compact form: x62 is the instance of class #2 here
 	unhex("7b 43 03 4b3030 91 0161 60 91  43 03 4b3031 91 0161 61 0178  43 03 4b3032 91 0161 62 e1"),
+	// values of types nobody registered, at a place where they are kept: refused by a new instance - and by one
+	// that was dropping such a value when its last message ended
+	unhex("43 03 782e79 91 01 61  60 91"),
+	unhex("72 07 5b6e6f73756368 90 91"),
+	unhex("4d 06 6e6f6d617070 01 61 91 5a"),
 }
 
 func TestC11(t *testing.T) {
